@@ -5,6 +5,7 @@ import Codec
 import DEvo.Opt.Optimize
 import DEvo.Sql.Merge
 import DEvo.Sql.Rebuild
+import DEvo.Sql.Schema
 
 /-! Line protocol driver: one JSON object per input line, one JSON object per output line.
 Only model modules (no Mathlib/Batteries) are imported, so this links as a `lean_exe`. -/
@@ -91,6 +92,17 @@ def handle (j : Json) : Except String Json := do
       pure (Json.mkObj [("out", mj out), ("arr", mj arr), ("second", second)])
     | .error (.keyError w) => pure (Json.mkObj [("err", "KeyError"), ("where", w)])
     | .error (.valueError w) => pure (Json.mkObj [("err", "ValueError"), ("where", w)])
+  | "schema" =>
+    let sig ← Codec.sigOf (← j.getObjVal? "sig")
+    let tj := fun (t : Sql.Table) => Json.mkObj [
+      ("columns", Json.arr (t.cols.map (fun c => Json.arr #[Json.str c.name, Json.str c.ctype, toJson c.notnull, toJson c.pk])).toArray),
+      ("indexes", Json.arr (t.indexes.map (fun i => Json.arr #[Codec.jStrs i.cols, toJson i.unique])).toArray),
+      ("checks", Codec.jStrs t.checks)]
+    let ms := sig.apps.flatMap (fun a => a.models)
+    pure (Json.mkObj [
+      ("fresh", Json.mkObj (ms.map (fun m => (m.table, tj (Sql.fresh sqliteEnv m))))),
+      ("rebuilt", Json.mkObj (ms.map (fun m => (m.table, tj (Sql.rebuilt sqliteEnv m))))),
+      ("plain", Json.mkObj (ms.map (fun m => (m.table, toJson (Sql.plainModel m)))))])
   | "rows_after" =>
     -- sequential rebuilds of one table: ops -> merged groups -> plan -> copy
     let aligned ← j.getObjValAs? Bool "aligned"
